@@ -64,6 +64,9 @@ def run(rep):
                     "leading/trailing/doubled semicolons; interiors of array/tuple literals under '::' untouched; EXPLAIN of every variant compared with the baseline; distinct_nontrivial = statements re-laid-out",
             "samples": samples or ["ok"], "statements": ok + bad, "bad": bad, "trusted_base": TRUSTED,
         })
+    # the layout theorems are stated over Lexer/LexerModel.v: tie that model to the CURRENT lexer.go (a difference is a broken correspondence)
+    import lexcommon
+    lexcommon.lexer_premise(rep, broken, ())
     verif.report_broken(rep, broken, found)
     rep.assumptions = ["whitespace is the lexer's own notion (unicode.IsSpace + six ClickHouse code points); a re-layout keeps token boundaries"]
 
